@@ -331,6 +331,8 @@ def translation_validation(h, d, obls, seed, n_random):
 def cbmc_cmd(o, d, backend, witness=False):
     cmd = ['cbmc', '-I', MODELS, os.path.join(d, 'gen.c'), os.path.join(d, 'drv_%s.c' % o['name']), '--function', 'verif_driver',
            '--unwind', str(o['unwind'])] + CBMC_BASE + o.get('cbmc', [])
+    if 'fs' in o:      # per-obligation field-sensitivity array size (default 0 = arrays as whole symbols)
+        i = cmd.index('--max-field-sensitivity-array-size'); cmd[i + 1] = str(o['fs'])
     for us in o.get('unwindset', []): cmd += ['--unwindset', us]
     if o.get('_unwindset'): cmd += ['--unwindset', ','.join(o['_unwindset'])]
     if backend == 'kissat': cmd += ['--external-sat-solver', 'kissat']
